@@ -345,6 +345,17 @@ func (p *vfProvider) handleToken(w http.ResponseWriter, req *http.Request) {
 	case "server_error":
 		p.fail(w, 500, "server_error", false)
 		return
+	case "drop":
+		// the provider processes the request, but the connection dies before any answer reaches the client
+		p.answers = append(p.answers, vfProvAnswer{OK: false})
+		if hj, ok := w.(http.Hijacker); ok {
+			if conn, _, err := hj.Hijack(); err == nil {
+				conn.Close()
+				return
+			}
+		}
+		w.WriteHeader(502)
+		return
 	case "malformed":
 		p.answers = append(p.answers, vfProvAnswer{OK: false})
 		w.Header().Set("Content-Type", "application/json")
